@@ -44,3 +44,6 @@ func TestC05(t *testing.T) { runProp(t, "C05", drawC05) }
 func TestC06(t *testing.T) { runProp(t, "C06", drawC06) }
 
 func TestC07(t *testing.T) { runProp(t, "C07", drawC07) }
+
+func TestC08(t *testing.T) { runProp(t, "C08", drawC08) }
+func TestC16(t *testing.T) { runProp(t, "C16", drawC16) }
